@@ -395,14 +395,15 @@ pub fn scen_prop_hist(ctx: &Ctx) -> i32 {
             cmp_every: if s.ops.len() > long_from { None } else { cmp_every },
             check_inv: check_inv && s.ops.len() <= long_from,
             decoder,
+            parse_check: matches!(prop, "C05" | "C06" | "C08"),
             cmp_end: prop_uses_bytes(&facets),
             ..Default::default()
         },
         &match prop {
             "C01" | "C14" => vec!["api", "oracle", "open"],
-            "C05" => vec!["decoder", "inv", "bytes", "open"],
-            "C06" => vec!["decoder", "inv", "bytes"],
-            "C08" => vec!["api", "oracle", "inv", "bytes", "decoder"],
+            "C05" => vec!["decoder", "inv", "bytes", "open", "parse"],
+            "C06" => vec!["decoder", "inv", "bytes", "parse"],
+            "C08" => vec!["api", "oracle", "inv", "bytes", "decoder", "parse"],
             "C17" => vec!["api", "oracle", "decoder"],
             _ => vec!["api", "oracle", "open", "bytes", "inv", "decoder"],
         },
@@ -513,8 +514,8 @@ pub fn scen_reopen(ctx: &Ctx) -> i32 {
     let b = run_batch(
         ctx,
         seqs,
-        |s| RunOpts { child: fnv(&s.text()) % 2 == 0, cmp_end: true, ..Default::default() },
-        &["api", "oracle", "open", "bytes"],
+        |s| RunOpts { child: fnv(&s.text()) % 2 == 0, cmp_end: true, parse_check: true, ..Default::default() },
+        &["api", "oracle", "open", "bytes", "parse"],
         "reopen",
     );
     finish(ctx, "reopen", &b, vec![])
